@@ -22,6 +22,7 @@ def base_config(S, path, accounts, frequency="1d", sim=None, accounts_mod=None, 
     }
     if base_extra:
         cfg["base"].update(base_extra)
+    cfg["mod"]["rqv_probe"] = {"enabled": True, "lib": "probe_mod", "priority": 1000}
     for name, mc in (extra_mods or {}).items():
         cfg["mod"][name] = mc
     return cfg
@@ -77,9 +78,16 @@ def run_real(S, cfg_kwargs, handlers, workaround_f19=True, path=None):
 
     def go(p):
         cfg = base_config(S, p, **cfg_kwargs)
+        import probe_mod
+        probe_mod.LAST.clear()
         try:
             with open(os.devnull, "w") as dn, contextlib.redirect_stderr(dn):     # rqalpha logs expected user errors to stderr
-                return run_func(config=cfg, **handlers), None
+                res = run_func(config=cfg, **handlers)
+            # a failed run returns None silently: the exception handed to the mods' tear_down tells
+            if probe_mod.LAST.get("code") not in (None, "EXIT_SUCCESS"):
+                ex = probe_mod.LAST.get("exc_val") or probe_mod.LAST.get("exception") or RuntimeError(probe_mod.LAST.get("code"))
+                return None, ex
+            return res, None
         except BaseException as ex:      # run_func re-raises strategy errors
             if isinstance(ex, KeyboardInterrupt):
                 raise
